@@ -14,9 +14,17 @@ TLC chose:
    moved    after os.unlink / shutil.move     setitem  after tables.prime[key] = name
    presend  before the reply is sent          sent     after the reply was written
    idle     between two updates
-   midcopy  (only in jobs with "xdev": true, an opt-in scenario outside the registered check)
-            staging and store are on different file systems (os.rename fails with EXDEV, so
-            shutil.move copies and unlinks) and the process dies in the middle of the copy
+   midcopy  inside the transfer of a new content into the store: every way dawgie.db.util can write bytes
+            under a name in the store directory (shutil.copyfile/copy/copy2/copyfileobj, open(.., 'w')) is a
+            shim that writes half of the bytes, flushes, and dies there; a publication by one rename
+            (shutil.move on one file system, os.rename/replace/link) has no inside, the process then dies
+            immediately before it -- which is what the unchanged code does
+ and the update can be made to FAIL without killing the process:
+   movefail    the move into the store raises ENOSPC
+   stagedlost  the staged file is deleted after encode() returned, before the request reaches the server
+   jobs with "xdev": true (opt-in scenario outside the registered check): staging and store are on
+            different file systems (os.rename fails with EXDEV, so shutil.move copies and unlinks) and
+            midcopy is the middle of that copy
 
 The calls are intercepted from outside (shim modules bound to the names `os`,
 `tempfile`, `pickle`, `subprocess`, `shutil` inside dawgie.db.util only; a wrapper
@@ -238,6 +246,8 @@ class H:
     cur = None
     ndigest = 0
     in_set = False
+    lost = False  # the staged file of the update in progress was taken away (plan 'stagedlost')
+    xdev = False
 
 
 def snapshot():
@@ -301,7 +311,7 @@ def _dump(*a, **k):
 
 def _chmod(*a, **k):
     r = os.chmod(*a, **k)
-    if H.active:
+    if H.active and H.pc == 'made':  # the chmod of encode(); any other chmod is not a step of the model
         H.pc = 'staged'
         step('StageWrite')
         site('chmod')
@@ -318,7 +328,7 @@ def _check_output(*a, **k):
 
 def _exists(p):
     r = os.path.exists(p)
-    if H.active:
+    if H.active and not H.lost:  # (after StagedLost the whole failing request is one step of the model)
         H.uex = bool(r)
         H.pc = 'checked'
         step('ExistsCheck')
@@ -340,14 +350,105 @@ def _unlink(*a, **k):
     return r
 
 
+def _before_publish():
+    '''plan 'midcopy': a kill inside the transfer of the content into the store.  A publication by one
+    rename / link has no inside: the process dies with the staged file in place and nothing in the store.'''
+    if H.active and not H.xdev:
+        site('midcopy')
+
+
 def _move(*a, **k):
     if H.active and H.plan == 'movefail':
         # the rename into the store fails without killing the process (disk full, permission denied)
         H.plan = 'none'
         raise OSError(errno.ENOSPC, 'No space left on device', a[1] if len(a) > 1 else None)
+    _before_publish()
     r = shutil.move(*a, **k)
     _moved()
     return r
+
+
+def _atomic(fn):
+    def wrapper(*a, **k):
+        _before_publish()
+        r = fn(*a, **k)
+        _moved()
+        return r
+
+    return wrapper
+
+
+def _halves(data, fdst):
+    '''a byte transfer as the kernel may perform it: some bytes, then the rest; the process can die between'''
+    fdst.write(data[: len(data) // 2])
+    fdst.flush()
+    site('midcopy')
+    fdst.write(data[len(data) // 2 :])
+
+
+def _copyfile(src, dst, *a, **k):
+    with open(src, 'rb') as f:
+        data = f.read()
+    with open(dst, 'wb') as f:
+        _halves(data, f)
+    return dst
+
+
+def _copy(src, dst, *a, **k):
+    if os.path.isdir(dst):
+        dst = os.path.join(dst, os.path.basename(src))
+    _copyfile(src, dst)
+    shutil.copymode(src, dst)
+    return dst
+
+
+def _copy2(src, dst, *a, **k):
+    if os.path.isdir(dst):
+        dst = os.path.join(dst, os.path.basename(src))
+    _copyfile(src, dst)
+    shutil.copystat(src, dst)
+    return dst
+
+
+def _copyfileobj(fsrc, fdst, *a, **k):
+    _halves(fsrc.read(), fdst)
+
+
+class _HalfWriter:
+    '''a file opened for writing inside the store directory by dawgie.db.util itself'''
+
+    def __init__(self, real):
+        self._real = real
+
+    def write(self, data):
+        if H.active and len(data) > 1:
+            _halves(data, self._real)
+            return len(data)
+        return self._real.write(data)
+
+    def __getattr__(self, name):
+        return getattr(self._real, name)
+
+    def __enter__(self):
+        self._real.__enter__()
+        return self
+
+    def __exit__(self, *a):
+        return self._real.__exit__(*a)
+
+    def __iter__(self):
+        return iter(self._real)
+
+
+def _open(file, mode='r', *a, **k):
+    f = open(file, mode, *a, **k)  # pylint: disable=consider-using-with,unspecified-encoding
+    try:
+        inside = isinstance(file, (str, os.PathLike)) and os.path.dirname(os.path.abspath(file)) == os.path.abspath(dawgie.context.data_dbs)
+    except Exception:  # pylint: disable=broad-except
+        inside = False
+    if H.active and inside and any(c in mode for c in 'wax+'):
+        return _HalfWriter(f)
+    return f
 
 
 _REAL_ENCODE = dbutil.encode
@@ -360,14 +461,20 @@ def _encode(value):
         H.pc = 'digested'
         step('Digest')
         site('encoded')
+        if H.plan == 'stagedlost':
+            # the environment takes the staged file away between encode() and the request to the server
+            os.unlink(r[0])
+            H.cur = None
+            H.lost = True
     return r
 
 
 dbutil.tempfile = Shim(tempfile, mkstemp=_mkstemp)
 dbutil.pickle = Shim(pickle, dump=_dump)
 dbutil.subprocess = Shim(subprocess, check_output=_check_output)
-dbutil.shutil = Shim(shutil, move=_move)
-dbutil.os = Shim(os, chmod=_chmod, unlink=_unlink, path=Shim(os.path, exists=_exists))
+dbutil.shutil = Shim(shutil, move=_move, copyfile=_copyfile, copy=_copy, copy2=_copy2, copyfileobj=_copyfileobj)
+dbutil.os = Shim(os, chmod=_chmod, unlink=_unlink, remove=_unlink, rename=_atomic(os.rename), replace=_atomic(os.replace), link=_atomic(os.link), path=Shim(os.path, exists=_exists))
+dbutil.open = _open
 dbutil.encode = _encode
 
 _REAL_SEND = comms.Worker._send
@@ -523,6 +630,7 @@ def install_xdev():
 
     shutil.os = Shim(os, rename=rename)
     shutil.copyfile = copyfile
+    H.xdev = True
 
 
 def child_segment(ops, logfn, xdev=False):
@@ -545,17 +653,19 @@ def child_segment(ops, logfn, xdev=False):
             H.uk, H.uc, H.uname, H.uex, H.cur, H.ndigest = op['k'], op['c'], '-', False, None, 0
             bot = dawgie.Task('tk', 0, run, tn)
             ds = model.Interface(Alg(an, SV(Val(op['c']))), bot, tn)
-            failing = op['site'] == 'movefail'
+            failing = {'movefail': 'MoveFails', 'stagedlost': 'StagedLost'}.get(op['site'])
+            H.lost = False
             try:
                 ds._update()  # pylint: disable=protected-access
             except OSError:
                 if not failing:
                     raise
                 # the update ended with an error; the database process lives on
-                H.pc, H.uk, H.uc, H.uname, H.uex, H.cur = 'idle', '-', '-', '-', False, None
+                H.pc, H.uk, H.uc, H.uname, H.uex, H.cur, H.lost = 'idle', '-', '-', '-', False, None, False
                 H.plan, H.reach = 'none', True
-                step('MoveFails', site='movefail')
+                step(failing, site=op['site'])
                 continue
+            H.lost = False
             flags = bot.new_values()
             assert len(flags) == 1, flags
             H.pc, H.uk, H.uc, H.uname, H.uex, H.cur = 'idle', '-', '-', '-', False, None
